@@ -126,6 +126,11 @@ T_C06_OrderQuantitiesWellFormed ==
   \A i \in DOMAIN ob.malformed : TRUE => Len(ob.malformed) = 0
 T_C12_BlockNeverFails == IsBlockEv(ev) => (ev.ok /\ ~ob.panicked)
 
+\* an operation whose documented preconditions hold does not make the handler
+\* panic (runTx recovers a panic into an error) under any accepted parameters
+T_C18_NoAbnormalAbort ==
+  [][(NotReset /\ ev'.dom = "spec" /\ WellFormed(ev'.m) /\ PreOf(st, ev')) => ~ob'.panicked]_tvars
+
 \* conformance as a checkable invariant (used by the self-test and the
 \* strict conformance target)
 T_Conformance == conf
